@@ -441,7 +441,7 @@ def explore(ctx, exe, pool, repaired, stats, on_result):
     budget2 = 0 if quick else 6000          # per scenario cap of the second wave (sampled beyond)
     wave = []
     for scn in smalls:
-        submit(scn, [("np", 1, 6000, ())], want_enabled=True)
+        submit(scn, [("np", 1, 6000, ()), ("nps", 1, 12000, ())], want_enabled=True)
     exhaustive_runs = 0
     level = 0
     pending = list(jobs)
@@ -462,17 +462,26 @@ def explore(ctx, exe, pool, repaired, stats, on_result):
             for scn, r in frontier:
                 ch = r["choices"] or []
                 base = len(parse_request(r["req"])[4])
-                for k in range(base, len(ch)):
-                    c, en = ch[k]
-                    for u in en:
-                        if u != c:
-                            per_scn.setdefault(scn.key(), (scn, []))[1].append(("np", 1, 6000, tuple(x for x, _ in ch[:k]) + (u,)))
+                split = " split=1 " in r["req"]
+                if split and level >= 2:
+                    continue              # split-mode schedules: first wave only
+                alts = [(k, u) for k in range(base, len(ch)) for u in ch[k][1] if u != ch[k][0]]
+                ent = per_scn.setdefault(scn.key() + (" split" if split else ""), (scn, [], [0], split))
+                ent[1].append((ch, alts))
+                ent[2][0] += len(alts)
             frontier = []
-            for key, (scn, specs) in per_scn.items():
-                if level == 2 and len(specs) > budget2:
+            for key, (scn, traces_alts, total, split) in per_scn.items():
+                total = total[0]
+                keep = None
+                if level == 2 and total > budget2:
                     stats["exhaustive_sampled"] = True
-                    rng.shuffle(specs)
-                    specs = specs[:budget2]
+                    keep = set(rng.sample(range(total), budget2))
+                specs, n = [], 0
+                for ch, alts in traces_alts:
+                    for (k, u) in alts:
+                        if keep is None or n in keep:
+                            specs.append(("nps" if split else "np", 1, 12000 if split else 6000, tuple(x for x, _ in ch[:k]) + (u,)))
+                        n += 1
                 submit(scn, specs, want_enabled=(level < depth))
             pending = list(jobs)
             jobs.clear()
@@ -628,7 +637,7 @@ def check(ctx):
     ctx.cov["max_threads_in_a_run"] = stats["maxthreads"]
     ctx.cov["exhaustive"] = False
     ctx.cov["exhaustive_scope"] = (f"{len(small_scenarios())} scenarios (<= 2 clients x <= 2 calls, queue sizes 1/2/4, lazy pool, retire clock): every schedule with "
-                                   f"<= {stats['exhaustive_depth']} deviation(s) from the non-preemptive default at any scheduling point"
+                                   f"<= {stats['exhaustive_depth']} deviation(s) from the non-preemptive default at any scheduling point (and, in scheduler split mode where the run-on after an operation is a step of its own, every schedule with <= 1 deviation)"
                                    f"{' (second wave sampled to 6000 per scenario)' if stats['exhaustive_sampled'] else ''}: {stats['exhaustive_runs']} runs")
     ctx.cov["rule"] = ("corpus replays + deviation-bounded exhaustive schedules of the small scope + random schedules (xorshift seeds from VERIF_SEED) of 4 stress scenarios "
                        "and of generated scenarios (1-3 clients, 1-3 futures each, start/join/result/abort/query/destroy, queue 1..8, min 0..2, max 3..4, lazy pool, clock ticks, "
